@@ -200,7 +200,7 @@ _ADD = {
     "C04": "; plus two terms of one election object both ended by a validation the application asks for (and by four other causes)",
     "C05": "; plus: two acquisition rounds with Create latencies 150 ms and {0.3, 1.3, 2.3} s and a purge placed by the explorer; a demotion (ValidateTokenOrDemote with a failing read) placed by the explorer inside a heartbeat tick's health check; two takeover rounds of one instance with the first round's read answered 300 ms late",
     "C06": "; plus: a second vacancy after the instance's own term; a restart with a stuck periodic read; a vacancy after a disconnect/reconnect blip seen by the follower (connection monitoring on); re-election after a health demotion (C12 family)",
-    "C07": "; plus: periodic validation next to heartbeats with latencies below H/2 (H=1s) and with H=10s and answers after 3 s / just under 5 s; a periodic-check read (150 ms) answered after the instance won the vacancy, with and without a change of leader in between; a leader of priority 10 (takeover off) next to a rule-abiding takeover-enabled starter of priority 5",
+    "C07": "; plus: periodic validation next to heartbeats with latencies below H/2 (H=1s) and with H=10s and answers after 3 s / just under 5 s; a periodic-check read (150 ms) answered after the instance won the vacancy, with and without a change of leader in between; a follower whose log sink takes up to 200 ms on the leader_changed line while its acquisition round wins; a leader of priority 10 (takeover off) next to a rule-abiding takeover-enabled starter of priority 5",
     "C08": "; plus: deletion observed through the watcher; two terms ended by the same cause; restart while a Create of the previous run is in flight; a second Start on a running leader; Stop racing the grace-period expiry inside the expiry handler (C11 family)",
     "C09": "; plus: every watcher the store handed out is stopped after the stop; a reconnect notification placed at every switch point of a running stop call (no store operation after the return)",
     "C10": "; priorities up to 2^62; plus a late acquisition round of a leader that was preempted by a higher priority meanwhile (Create latencies 150/600 ms)",
